@@ -58,6 +58,10 @@ CHECKS.update({
    text="Runtime monitoring of the Compiler's register allocator: a seeded generator produces IR programs (all CFG shapes up to 5 body blocks in the thorough tier; loops, jump tables, calls through several signatures, GP/vector/mask values up to ~160 simultaneously live, fixed-register instructions, partial-register and high-byte operands, memory-operand substitution candidates, AVX-512) which are emitted through x86::Compiler (x86-64: executed natively in forked children on 16 inputs each and compared with a reference interpreter that tracks byte-level definedness; x86-32: compiled, decoded with objdump, finalize errors judged) and a64::Compiler (compiled, decoded with llvm-mc; register-list programs checked by symbolic dataflow over the disassembly); the allocator itself runs under ASan+UBSan; fixed probes target each allocator idiom (same-register hints, immediate idioms, reg->mem substitution, consecutive registers, unreachable blocks); failing programs are shrunk.",
    design_ref="DESIGN.md section 2, C05", note="x86-32 and AArch64 output is never executed (no such CPU here): compile-only plus symbolic list dataflow, stated in the evidence.",
    technique="native-execution differential monitor (JIT code vs reference interpreter) + sanitizer build + symbolic dataflow over disassembly"),
+ "C06": dict(category="exploration",
+   text="Runtime monitoring with compilers as the ABI oracle: generated C probe functions over integer/float/vector/mmx/mask signatures (up to 32 arguments, varargs) are compiled by gcc 12 and clang 14 for every convention (SysV x86-64, ms_abi/Win64, vectorcall, cdecl, stdcall, fastcall, thiscall, regparm1-3, AAPCS64, Apple arm64) and the argument/return locations, callee-pop size, red/spill zones and preserved sets are read from the assembly; FuncDetail/CallConv answers of the ASan+UBSan build are compared with them where the compilers agree (ambiguous signatures: no verdict); native interop on x86-64 (JIT caller <-> compiled callee and the reverse, SysV and ms_abi, light-call pairs) checks values end to end; emit_args_assignment is exercised with generated assignments (permutation cycles, chains, self-moves needing extension, stack<->reg<->stack, scratch exhaustion, conversions) - executed natively on x86-64 and by a byte-level symbolic executor over objdump/llvm-objdump output for x86-32 and AArch64, with a per-case hang watchdog.",
+   design_ref="DESIGN.md section 2, C06", note="Windows-only conventions have clang as the single oracle; x86-32 and AArch64 entry sequences are executed symbolically only.",
+   technique="compiler-probe differential monitor + native interop execution + symbolic execution of entry sequences, sanitizer build"),
  "C07": dict(category="exploration",
    text="Runtime monitoring: 2.8e5 (quick) / 4e6 (thorough) random and boundary FuncFrames; prolog + generated monitor body + epilog are executed natively on x86-64 (register/canary trampoline), on x86-32 through a compatibility-mode far-call gate, and AArch64 prolog/epilog are interpreted symbolically from llvm-mc's disassembly; preserved registers (ABI documents, not asmjit tables), SP, alignment, canaries, stack-argument reads and pairwise disjointness of the reported areas are checked.",
    design_ref="DESIGN.md section 2, C07", note="AArch64 is not executed (symbolic SP/slot tracking); light-call/custom conventions are judged against their own preserved masks; low 128 bits of vector registers compared.",
